@@ -181,13 +181,24 @@ func (openerSuite) Run(h map[string]string, ops []string) []string {
 		base = time.Date(2000, 1, 1, 0, 0, 0, 0, time.UTC)
 	}
 	nowAt := base
+	building, buildTicks := false, int64(0)
 	if h["kind"] == "consec" {
 		o = simplelogic.ConsecutiveErrOpenerFactory(simplelogic.ConfigConsecutiveErrOpener{ErrorThreshold: getI(h, "thr", 10)})()
 		co = o.(*simplelogic.ConsecutiveErrOpener)
 	} else {
 		hcfg = hystrix.ConfigureOpener{ErrorThresholdPercentage: getI(h, "pct", 50), RequestVolumeThreshold: getI(h, "vol", 20),
-			Now: func() time.Time { return nowAt }, RollingDuration: time.Duration(getI(h, "dur", 10_000_000_000)), NumBuckets: int(getI(h, "n", 10))}
+			// while the opener is being built every reading of its clock moves on by 1 ns (a real clock would): both
+			// rolling counters must nevertheless start their bucket grid at the same instant — the first reading
+			Now: func() time.Time {
+				t := nowAt.Add(time.Duration(buildTicks))
+				if building {
+					buildTicks++
+				}
+				return t
+			}, RollingDuration: time.Duration(getI(h, "dur", 10_000_000_000)), NumBuckets: int(getI(h, "n", 10))}
+		building = true
 		o = hystrix.OpenerFactory(hcfg)()
+		building, buildTicks = false, 0
 		ho = o.(*hystrix.Opener)
 	}
 	ctx := context.Background()
